@@ -146,9 +146,11 @@ KillClauses(e, pred) ==
 
 (* ---- conformance: predicted state vs observation, field group by field group ---- *)
 PredActive(st, k) == [j \in 1..Len(st.pools[k].active) |-> LET c == st.ctr[st.pools[k].active[j]] IN
-                        [cid |-> st.pools[k].active[j], idx |-> c.idx, mem |-> c.mem, can |-> c.can, ticks |-> c.ticks, cpu |-> c.cpu, ram |-> c.ram]]
+                        [cid |-> st.pools[k].active[j], idx |-> c.idx, mem |-> c.mem, ticks |-> c.ticks, cpu |-> c.cpu, ram |-> c.ram]]
+PredCan(st, k) == [j \in 1..Len(st.pools[k].active) |-> <<st.pools[k].active[j], st.ctr[st.pools[k].active[j]].can>>]
+ObsCan(p) == [j \in 1..Len(p.active) |-> <<p.active[j].cid, p.active[j].can>>]
 ObsActive(p) == [j \in 1..Len(p.active) |-> LET c == p.active[j] IN
-                        [cid |-> c.cid, idx |-> c.idx, mem |-> c.mem, can |-> c.can, ticks |-> c.ticks, cpu |-> c.cpu, ram |-> c.ram]]
+                        [cid |-> c.cid, idx |-> c.idx, mem |-> c.mem, ticks |-> c.ticks, cpu |-> c.cpu, ram |-> c.ram]]
 PredSusp(st, k) == [j \in 1..Len(st.pools[k].suspending) |-> [cid |-> st.pools[k].suspending[j], sleft |-> st.ctr[st.pools[k].suspending[j]].sleft]]
 ObsSusp(p) == [j \in 1..Len(p.suspending) |-> [cid |-> p.suspending[j].cid, sleft |-> p.suspending[j].sleft]]
 PredResults(st) == [j \in 1..Len(st.results) |-> [cid |-> st.results[j].cid, err |-> st.results[j].err, pool |-> st.results[j].pool]]
@@ -159,7 +161,7 @@ ConfOK(e, pred) ==
   /\ \A k \in 1..cfg.np : LET op == e.obs.pools[k] IN
        /\ pred.pools[k].acpu = op.acpu /\ pred.pools[k].aram = op.aram /\ Near(op.aramr)
        /\ pred.pools[k].cons = op.cons /\ Near(op.consr)
-       /\ PredActive(pred, k) = ObsActive(op)
+       /\ PredActive(pred, k) = ObsActive(op) /\ PredCan(pred, k) = ObsCan(op)
        /\ PredSusp(pred, k) = ObsSusp(op) /\ pred.pools[k].suspended = op.suspended
        /\ pred.pools[k].ncomp = op.ncomp
   /\ PredResults(pred) = ObsResults(e.obs)
@@ -171,6 +173,8 @@ ConfClauses(e, pred) ==
                <<k, "pred", pred.pools[k].acpu, pred.pools[k].aram, "obs", op.acpu, op.aram, op.aramr>>)
        /\ Flag(e, "conf.C04.cons", pred.pools[k].cons = op.cons /\ Near(op.consr), <<k, "pred", pred.pools[k].cons, "obs", op.cons, op.consr>>)
        /\ Flag(e, "conf.C05.ctr", PredActive(pred, k) = ObsActive(op), <<k, "pred", PredActive(pred, k), "obs", ObsActive(op)>>)
+       \* suspendable exactly right after a non-final operator finished (the spec knows the in-operator position)
+       /\ Flag(e, "conf.C10.can", PredCan(pred, k) = ObsCan(op), <<k, "pred", PredCan(pred, k), "obs", ObsCan(op)>>)
        /\ Flag(e, "conf.C10.lists", PredSusp(pred, k) = ObsSusp(op) /\ pred.pools[k].suspended = op.suspended,
                <<k, "pred", PredSusp(pred, k), pred.pools[k].suspended, "obs", ObsSusp(op), op.suspended>>)
        /\ Flag(e, "conf.C09.ncomp", pred.pools[k].ncomp = op.ncomp, <<k, pred.pools[k].ncomp, op.ncomp>>)
